@@ -1842,19 +1842,27 @@ def probe_config(ctx):
             ctx.violation('Config', 'public-member-not-covered-by-the-check',
                           f'Config defines {sorted(set(members) ^ set(CONFIG_MEMBERS)) + dunders}: the list of mutators / accessors of '
                           'harness/c20.py (CONFIG_MEMBERS, cfg_edits, probe_config, model cmut) must be extended first', case=case)
-        # DECLARED open finding: Python's shallow copy of a Config is a Config instance sharing every nested dict
-        sc = copy.copy(config.Config())
+        # what IS promised for copies: copy.deepcopy(cfg) and any copy method Config itself defines give an
+        # independent instance (copy.copy(cfg) / dict.copy() are Python's shallow copies the user asks for: not checked)
         src = config.Config()
-        sc2 = copy.copy(src)
-        if isinstance(sc2, config.Config) and (set(dict_ids(sc2)) - {id(sc2)}) & set(dict_ids(src)):
-            sc2.enable_tracing()
-            if src.is_tracing_enabled is True:
-                ctx.violation('copy.copy(Config)', 'shallow-copy-shares-nested-dictionaries',
-                              'copy.copy(cfg) is a Config instance whose nested dictionaries are those of cfg',
-                              case=dict(case, probe='shallow-copy'),
-                              predicate='separate Config instances never share mutable state')
+        src.set_ncpu(7)
+        osrc = observe(src)
+        copies = [('copy.deepcopy', copy.deepcopy(src))]
+        for meth in ('copy', '__copy__', '__deepcopy__'):
+            if meth in vars(config.Config):            # only methods defined by Config itself
+                copies.append((f'Config.{meth}', getattr(src, meth)() if meth != '__deepcopy__' else src.__deepcopy__({})))
+        for label, cp in copies:
+            if observe(cp)[0] != osrc[0]:
+                ctx.violation(label, 'copy-differs-from-original', 'the copy does not have the content of the original', case=case)
+            if set(dict_ids(cp)) & (set(dict_ids(src)) | set(dict_ids(config._BASECONFIG))):
+                ctx.violation(label, 'instances-share-mutable-state', 'the copy shares a dictionary with the original', case=case)
+            for e in edits:
+                e(cp)
+            if observe(src) != osrc:
+                ctx.violation(label, 'edit-visible-in-other-instance', 'an edit of the copy shows in the original', case=case)
+        ctx.case({'probe': 'config-deepcopy'})
         if dict(config.Config()) != pristine:
-            ctx.violation('Config.__init__', 'template-polluted-by-other-instance', 'after the shallow-copy probe', case=case)
+            ctx.violation('Config.__init__', 'template-polluted-by-other-instance', 'after the copy probe', case=case)
     finally:
         sys.path[:] = saved_path
 
